@@ -193,7 +193,7 @@ pub fn def(ctx: &Ctx) -> PropDef {
         subs.push(ESub::boxed(format!("matrix/{}", ty.name()), 50, move || vec![AlgCase::ZeroFixed(ty), AlgCase::Rank(ty)], check_alg));
         subs.push(PSub::boxed(
             format!("linearity/{}", ty.name()),
-            t.pick(1500, 100_000),
+            t.pick(5000, 500_000),
             move || (gens::seed_for(ty, false), gens::seed_for(ty, false)).prop_map(move |(a, b)| PairCase { ty, a, b }).boxed(),
             check_linear,
         ));
@@ -206,7 +206,7 @@ pub fn def(ctx: &Ctx) -> PropDef {
         ));
         subs.push(PSub::boxed(
             format!("minpoly/{}", ty.name()),
-            t.pick(6, 120),
+            t.pick(10, 400),
             move || (gens::seed_for(ty, false), 0usize..512).prop_map(move |(s, tap)| MinPolyCase { ty, s, tap }).boxed(),
             check_minpoly,
         ));
